@@ -12,8 +12,9 @@ import (
 )
 
 // RotLoop is a rotated counted loop as go/ssa emits for `for i := range n`:
-//   pre:  if 0 < N goto body else done
-//   body: i = phi [pre: 0, latch: i+1] ... latch: if i+1 < N goto body else done
+//
+//	pre:  if 0 < N goto body else done
+//	body: i = phi [pre: 0, latch: i+1] ... latch: if i+1 < N goto body else done
 type RotLoop struct {
 	Pre   *ssa.BasicBlock
 	Head  *ssa.BasicBlock
